@@ -8,14 +8,20 @@ META = dict(
     text=("Coq theorems over a faithful model of the sweep-line decision logic (wind-count assignment, contribution "
           "table, IntersectEdges winding update and action selection, side assignment) for ALL event histories and all "
           "16 fill-rule x clip-type combinations: contributing edge <=> boundary of the specified region, invariant "
-          "preserved by every insert/swap/remove, net winding 0/1 on every scanline (partial: the geometry that "
-          "produces the event sequence and assembles rings is not proved).  The model is tied to the code by exact "
-          "correspondence on exhaustively enumerated synthetic AELs and by AEL snapshots of real runs; the whole "
+          "preserved by every insert/swap/remove, net winding 0/1 on every scanline; the contribution decision is proved "
+          "over the TRANSLATED IsContributingClosed/Open (regenerated from the C++ on every run); a second model of the "
+          "ring-assembly primitives (AddLocalMinPoly, AddOutPt, AddLocalMaxPoly, JoinOutrecPaths, SwapOutrecs) with "
+          "point conservation and the edge/OutRec coupling invariant over ALL valid operation sequences (partial: the "
+          "geometry that produces the event sequence, joins/splits and clean-up are not proved).  The models are tied to "
+          "the code by exact correspondence on exhaustively enumerated synthetic AELs, on generated ring operation "
+          "sequences driven through the real member functions, and by AEL snapshots of real runs; the whole "
           "API is compared with the Coq-defined winding-number specification on generated general-position inputs "
           "(all options, both precision builds, 7 coordinate regimes) within exactly the stated tolerance."),
     note=("Trusted: Coq kernel; extraction of the specification/oracle; C++ harness with private access; generators. "
-          "Proved for the 1-D decision logic only; scanbeam geometry, intersection rounding, ring assembly and "
-          "clean-up are validated by sampling against the exact specification, not proved."),
+          "Proved for the 1-D decision logic and the ring-assembly primitives only; scanbeam geometry, intersection "
+          "rounding (incl. the out-of-scanbeam repair of AddNewIntersectNode), joins, splits and clean-up are validated by "
+          "sampling against the exact specification (random general-position sets in 7 regimes, nearly horizontal "
+          "edges crossed a fraction of a unit from a scanline), not proved."),
     technique='Coq proof (invariant by induction over sweep events) + model/implementation correspondence + spec oracle',
 )
 
